@@ -113,6 +113,11 @@ class SeqWorld:
         return _mc_root_async(fn)
 
 
+def _spin():
+    from .engine import SpinTimeout
+    return SpinTimeout
+
+
 def _mc_root_sync(fn):
     def __mc_root__():
         from .tshim import SeqDeadlock
@@ -124,6 +129,8 @@ def _mc_root_sync(fn):
             return ("deadlock", e)
         except Exception as e:
             return ("exc", e)
+        except _spin() as e:
+            return ("livelock", e)
     return __mc_root__()
 
 
@@ -133,6 +140,8 @@ def _mc_root_async(fn):
     st, val, loop = run_single(__mc_root__)
     if st == "exc" and isinstance(val, sim.Hang):
         return ("hang", val)
+    if st == "exc" and isinstance(val, _spin()):
+        return ("livelock", val)
     if st in ("deadlock", "livelock"):
         return (st, None)
     return (st, val)
